@@ -7,6 +7,8 @@
 //!                  l1_0 / l1_4  top of book of instrument 0 / 4
 //!                  lt_0 / lt_4  last traded price of instrument 0 / 4
 //!                  ord_c1 / ord_c2  open-order details of c1 (instrument 0) / c2 (instrument 4)
+//!                  bal0 / bal1 / bal3 are balances of ONE exchange (one full snapshot may list them all, a stale one
+//!                                   ahead of a fresh one), bal4 of the other
 //!                  ord_c3 / ord_c4  ... of c3 (instrument 0 as well) / c4 (instrument 1, same exchange):
 //!                                   a full snapshot that lists one of them says nothing about the others
 //! A message {item,t,v} becomes a real BalanceSnapshot / OrderSnapshot / full account Snapshot
@@ -40,7 +42,7 @@ use rust_decimal::Decimal;
 use serde_json::{Value, json};
 use vh::{engine_kit::*, util::*, world2};
 
-const ITEMS: [&str; 10] = ["bal0", "bal4", "l1_0", "l1_4", "lt_0", "lt_4", "ord_c1", "ord_c2", "ord_c3", "ord_c4"];
+const ITEMS: [&str; 12] = ["bal0", "bal1", "bal3", "bal4", "l1_0", "l1_4", "lt_0", "lt_4", "ord_c1", "ord_c2", "ord_c3", "ord_c4"];
 const ORDER_QTY: i64 = 100; // reports are partial fills: the order stays tracked (lifecycle is C01's)
 
 fn item_target(item: &str) -> (String, usize) {
